@@ -91,6 +91,37 @@ def cases(rng, tier, stats):
                                                  info={"action": action, "depth": depth, "kind": kind, "followers": mask, "context": ctx, "pre": pre}))
                             np_ += 1
     stats["after_closed_construct"] = np_
+    # re-entrancy: a function whose loop body calls the function itself (directly, or through a second function) while the outer
+    # activation is suspended inside that loop; afterwards the outer activation continues, breaks or closes its own loop — each
+    # activation's loop is its own, whatever the inner ones did (left by break, by `ফেরত` from inside the loop, or normally)
+    nrec = 0
+    for inner_exit in ("break", "return", "normal"):
+        for outer_next in ("continue", "break", "close"):
+            for mutual in (False, True):
+                for ctx in (0, 1):
+                    callee = "মাঝ" if mutual else "হাঁট"
+                    exit_st = {"break": [("if", [(G.bin_(">=", G.var("i"), G.num(2)), [("break",)])], None)],
+                               "return": [("if", [(G.bin_(">=", G.var("i"), G.num(2)), [("return", G.var("d"))])], None)],
+                               "normal": [("if", [(G.bin_(">", G.var("i"), G.num(2)), [("break",)])], None)]}[inner_exit]
+                    after_call = {"continue": [("if", [(G.bin_("==", G.var("i"), G.num(1)), [("print", G.s("আবার-যাই")), ("continue",)])], None)],
+                                  "break": [("if", [(G.bin_("==", G.var("i"), G.num(1)), [("decl", "ভ", G.num(5)), ("break",)])], None)],
+                                  "close": []}[outer_next]
+                    body = [("assign", "i", [], G.bin_("+", G.var("i"), G.num(1)))] + exit_st + [
+                            ("print", G.bin_("+", G.bin_("*", G.var("d"), G.num(10)), G.var("i"))),
+                            ("if", [(G.bin_("<", G.var("d"), G.num(2)), [("expr", G.call(callee, G.bin_("+", G.var("d"), G.num(1))))])], None)] + after_call + [
+                            ("print", G.s("পাক-শেষ"))]
+                    funcs = [("func", "হাঁট", ["d"], [("decl", "i", G.num(0)), ("loop", body), ("print", G.bin_("+", G.num(1000), G.var("d"))), ("return", G.var("d"))])]
+                    if mutual:
+                        funcs.append(("func", "মাঝ", ["e"], [("decl", "j", G.num(0)),
+                                                              ("loop", [("assign", "j", [], G.bin_("+", G.var("j"), G.num(1))), ("if", [(G.bin_(">", G.var("j"), G.num(1)), [("break",)])], None),
+                                                                        ("expr", G.call("হাঁট", G.var("e")))]), ("return", G.var("e"))]))
+                    main = [("print", G.call("হাঁট", G.num(0))), ("print", G.s("শেষ"))]
+                    if ctx == 1:
+                        main = [("decl", "বা", G.num(0)), ("loop", [("assign", "বা", [], G.bin_("+", G.var("বা"), G.num(1))),
+                                                                   ("if", [(G.bin_(">", G.var("বা"), G.num(2)), [("break",)])], None)] + main + [("print", G.var("বা"))]), ("print", G.s("সব শেষ"))]
+                    out.append(prog_case("loop-re-entered", funcs + main, info={"inner_exit": inner_exit, "outer_next": outer_next, "mutual": mutual, "context": ctx}))
+                    nrec += 1
+    stats["loop_re_entered"] = nrec
     stats["systematic"] = n
     # return from inside a loop in the callee, then break/continue in the caller's loop
     prog = [("func", "ফ", [], [("decl", "i", G.num(0)), ("loop", [("if", [(G.b(True), [("return", G.num(7))])], None)])]),
